@@ -259,6 +259,19 @@ def run_r5(ctx, rule):
                     for a, b in ((e[2], e[3]), (e[3], e[2])):
                         is_code = a[0] == "call" and norm(a[2]).endswith("Lit::code") and not (f.kind != "Closure" and a[3][0] in (("l", 2), ("l", 3)))
                         is_pol = b[0] == "bin" and b[1] == "BitAnd" and b[3] == ("c", 1)
+                        if not is_pol and f.kind == "Closure" and b[0] == "f" and b[1] == ("l", 1):
+                            # the polarity bit was computed by the enclosing function and captured
+                            from .c06 import upvar_parent_expr
+                            up = upvar_parent_expr(facts, f, b)
+                            if up is not None:
+                                pe = up[1]
+                                for _ in range(4):
+                                    if pe[0] == "l":
+                                        pe2 = sym(up[0]).origin(pe)
+                                        if pe2 == pe:
+                                            break
+                                        pe = pe2
+                                is_pol = pe[0] == "bin" and pe[1] == "BitAnd" and pe[3] == ("c", 1)
                         if is_code and is_pol:
                             ok = True
                             where = f.loc(bb)
